@@ -170,6 +170,8 @@ struct JanetVM {
     size_t tq_count;
     size_t tq_capacity;
     JanetQueue spawn;
+    JanetQueue chan_outbox; /* hand-offs to other threads made while a channel mutex is held; posted after the last unlock */
+    int32_t chan_lock_depth; /* number of channel mutexes this thread holds */
     JanetTimeout *tq;
     JanetRNG ev_rng;
     volatile JanetAtomicInt listener_count; /* used in signal handler, must be volatile */
